@@ -94,6 +94,10 @@ type errflow struct {
 	// extraClass lets a property add reviewed (function, sentinel) pairs
 	extraClass map[string]map[string]bool
 	maxStates  int
+	// strictWrap: an error keeps its identity only when returned itself or wrapped with %w; formatting it with
+	// another verb, or returning a different error on its failure path, loses it (used for truncation errors that a
+	// caller classifies with errors.Is)
+	strictWrap bool
 }
 
 func newErrflow(r *Report, rule string) *errflow {
@@ -519,6 +523,9 @@ func (ef *errflow) explore(fn *ssa.Function, origin Site, evals []ssa.Value) (Ve
 						pass = true
 					}
 				}
+				if pass && ef.strictWrap && ck == "fmt.Errorf" && !wrapsWithW(x, has) {
+					pass = false
+				}
 				if pass {
 					t := x.Type()
 					if tup, ok := t.(*types.Tuple); ok {
@@ -555,6 +562,9 @@ func (ef *errflow) explore(fn *ssa.Function, origin Site, evals []ssa.Value) (Ve
 					return
 				}
 				if st.mode == 1 {
+					if ef.strictWrap {
+						bad = append(bad, fmt.Sprintf("identity lost: on the failure path a different error (not wrapping this one with %%w) is returned at %s", ef.p.Pos(x.Pos())))
+					}
 					return // reports a (different) error
 				}
 				if kind == "unknown" {
@@ -705,4 +715,55 @@ func moduleReach(p *Prog, roots []*ssa.Function) []*ssa.Function {
 	}
 	sort.Slice(out, func(i, j int) bool { return FuncKey(out[i]) < FuncKey(out[j]) })
 	return out
+}
+
+// wrapsWithW: the fmt.Errorf call wraps a carrier argument with the %w verb.
+func wrapsWithW(c *ssa.Call, has func(ssa.Value) bool) bool {
+	f, ok := stringConst(c.Call.Args[0])
+	if !ok {
+		return true // cannot see the format: do not guess
+	}
+	// verbs in order
+	var verbs []byte
+	for i := 0; i < len(f); i++ {
+		if f[i] != '%' {
+			continue
+		}
+		j := i + 1
+		for j < len(f) && strings.ContainsRune("+-# 0123456789.*[]", rune(f[j])) {
+			j++
+		}
+		if j < len(f) {
+			if f[j] != '%' {
+				verbs = append(verbs, f[j])
+			}
+			i = j
+		}
+	}
+	// the variadic values in order
+	sl, ok := c.Call.Args[len(c.Call.Args)-1].(*ssa.Slice)
+	if !ok {
+		return true
+	}
+	al, ok := sl.X.(*ssa.Alloc)
+	if !ok {
+		return true
+	}
+	vals := map[int64]ssa.Value{}
+	for _, rf := range *al.Referrers() {
+		if ia, ok := rf.(*ssa.IndexAddr); ok {
+			idx, _ := constInt(ia.Index)
+			for _, rr := range *ia.Referrers() {
+				if st, ok := rr.(*ssa.Store); ok {
+					vals[idx] = st.Val
+				}
+			}
+		}
+	}
+	for i, vb := range verbs {
+		if v, ok := vals[int64(i)]; ok && has(v) {
+			return vb == 'w'
+		}
+	}
+	return false
 }
